@@ -5,13 +5,13 @@ GROUPS = [
     Group("log/sites", "-", custom=sites.site_obligations, must_fail=(), props=["C20"], kind="proved",
           functions=["(all library translation units: enumeration of writer call sites)"],
           assumed=["log/sites: supporting static enumeration over the goto binaries of all library translation units (3 instantiations); sites audited as 'assumed' in contracts/c20_sites.json (debug printers, console editor, pointer comparisons) are not decided by a contract"]),
-    Group("log/QSlogv", "log_qslogv.c", tus=["logging.c"], model=[], dfcc=False, props=["C20"], functions=["QSlog", "QSlogv", "QSlog_set_handler"],
+    Group("log/QSlogv", "log_qslogv.c", tus=["logging.c"], model=[], dfcc=False, props=["C20", "C17"], functions=["QSlog", "QSlogv", "QSlog_set_handler"],
           note="loop-free; message length symbolic up to 70000",
           assumed=["log/QSlogv: vsnprintf is modelled (reports an arbitrary length, writes min(len,size-1) characters + NUL); abort() does not return; malloc does not fail (its failure path is perror+abort)"]),
-    Group("log/QSwrite_prob", "log_writeprob.c", tus=["qsopt_mpq.c", "allocrus.c", "reporter.c"], model=MODEL, dfcc=False, props=["C20", "C18"],
+    Group("log/QSwrite_prob", "log_writeprob.c", tus=["qsopt_mpq.c", "allocrus.c", "reporter.c"], model=MODEL, dfcc=False, props=["C20", "C18", "C17"],
           must_fail=["reach_end", "reach_open_failed"], functions=["QSwrite_prob", "QSwrite_prob_EGioFile", "QSreport_prob"],
           assumed=["log/QSwrite_prob: EGioOpen/EGioOpenFILE/EGioClose/EGioWrite and ILLwrite_lp/ILLwrite_mps are ghost stubs"]),
-    Group("log/next_line", "log_nextline.c", tus=["read_lp_mpq.c"], model=MODEL, dfcc=False, props=["C20", "C11"], unwind=8, kind="bounded", namebuf=512,
+    Group("log/next_line", "log_nextline.c", tus=["read_lp_mpq.c"], model=MODEL, dfcc=False, props=["C20", "C11", "C17"], unwind=8, kind="bounded", namebuf=512,
           bound="reader buffer capacity ILL_namebufsize reduced from 131072 to 512 (the one defining line in symtab.h, replaced in the scratch copy); input lines of at most 3 arbitrary non-NUL bytes, at most 3 lines per call; all loops completely unwound",
           functions=["ILLread_lp_state_next_line"], ignore=[(r"strcpy src/dst overlap", "CBMC's strcpy model demands different OBJECTS; line[] and realline[] are distinct member arrays of one struct and cannot overlap")], assumed=["log/next_line: the line source is a stub producing arbitrary short lines"]),
 ]
